@@ -17,8 +17,8 @@ open Pendulum Pendulum.Iso Pendulum.ParseAll
 /-- the result is a value of one of the five types (`Out`: DateTime, Date, Time, Duration, Interval) or a `ValueError` kind -/
 def Total (r : Except Kind Out) : Prop := ∀ k, r = .error k → k = .parserError ∨ k = .valueError
 
-/-- **parse_total.** For every string, every option combination (`exact`, `strict`, `day_first`, `year_first`, fixed-offset or
-    default `tz`, any `now`), both backends, and every dateutil that fails only with `ValueError`s or `ArithmeticError`s
+/-- **parse_total.** For every string, every option combination (`exact`, `strict`, `day_first`, `year_first`, `tz` absent,
+    a fixed offset or `None` (`TzOpt`), any `now`), both backends, and every dateutil that fails only with `ValueError`s or `ArithmeticError`s
     (`DuOk`: OverflowError and decimal.InvalidOperation were observed, the repaired code catches the whole class):
     `parse()` returns a DateTime, Date, Time, Duration or Interval, or raises a `ValueError` (`ParserError` included) —
     never `TypeError`, `AttributeError`, `OverflowError`, … -/
@@ -66,13 +66,122 @@ theorem interval_total (b : Backend) (cs : List Char) (k : Kind) (h : parseInter
 
 /-- … and an interval whose endpoint is not a representable datetime (range of `datetime`, of `timedelta`, of the UTC instant
     in `Interval.__new__` / `precise_diff`, offset of 24 h or more) is a `ParserError`, not an `OverflowError` -/
-theorem interval_assembly_parser_error (b : Backend) (tz : Option Int) (r : IntervalRaw) (k : Kind)
+theorem interval_assembly_parser_error (b : Backend) (tz : TzOpt) (r : IntervalRaw) (k : Kind)
     (h : assemble b tz r = .error k) : k = .parserError := assemble_PE b tz r k h
 
 example : parseAll .py {} (fun _ _ _ => .error .parserError) "P1D/P1D".toList = .error .parserError := by decide
 example : parseAll .rust {} (fun _ _ _ => .error .parserError) "2021-03-04/05:06:07".toList = .error .parserError := by decide
 example : parseAll .py {} (fun _ _ _ => .error .parserError) "2021-03-04/2021-03-05".toList =
     .ok (.interval (dateV 2021 3 4) (dateV 2021 3 5)) := by decide
+
+/-! ### `tz=None`: naive values, and the repaired endpoint check of `parser.py::_interval` -/
+
+/-- the two endpoints of a `start/end` interval string are both DateTimes -/
+def BothDateTimes (s e : Value) : Prop := s.kind = .datetime ∧ e.kind = .datetime
+
+/-- **interval_mixed_endpoints_rejected.** Under `tz=None`, a `start/end` interval with one endpoint written with a UTC offset
+    and the other without (`2021-03-04T00Z/2021-03-05T00`) is a `ParserError` (a `ValueError`), for both backends, whatever
+    the values — before the repair `Interval.__new__` raised `TypeError` -/
+theorem interval_mixed_endpoints_rejected (b : Backend) (s e : Value) (hk : BothDateTimes s e)
+    (hmix : s.off.isSome ≠ e.off.isSome) : assemble b .naive (.startEnd s e) = .error .parserError := by
+  obtain ⟨hs, he⟩ := hk
+  obtain ⟨ks, ys, ms, ds, hs', mis, ss, uss, offs⟩ := s
+  obtain ⟨ke, ye, me, de, he', mie, se, use, offe⟩ := e
+  simp only at hs he
+  subst hs he
+  have key : assembleRaw b .naive (.startEnd ⟨.datetime, ys, ms, ds, hs', mis, ss, uss, offs⟩
+        ⟨.datetime, ye, me, de, he', mie, se, use, offe⟩) = .error .parserError ∨
+      assembleRaw b .naive (.startEnd ⟨.datetime, ys, ms, ds, hs', mis, ss, uss, offs⟩
+        ⟨.datetime, ye, me, de, he', mie, se, use, offe⟩) = .error .valueError := by
+    cases offs <;> cases offe
+    · exact absurd rfl hmix
+    · rename_i c
+      cases hc : offOk c <;> simp [assembleRaw, instanceDT, endOff, isAware, TzOpt.fill, hc]
+    · rename_i a
+      cases ha : offOk a <;> simp [assembleRaw, instanceDT, endOff, isAware, TzOpt.fill, ha]
+    · exact absurd rfl hmix
+  unfold assemble
+  rcases key with h | h <;> rw [h]
+
+/-- **interval_naive_endpoints.** Under `tz=None` two endpoints without offset give the Interval of the two naive DateTimes,
+    unconditionally: nothing is shifted to UTC, so even `0001-01-01T00:00/9999-12-31T23:59:59` is representable -/
+theorem interval_naive_endpoints (b : Backend) (s e : Value) (hk : BothDateTimes s e) (hs : s.off = none) (he : e.off = none) :
+    assemble b .naive (.startEnd s e) = .ok (.interval s e) := by
+  obtain ⟨hs', he'⟩ := hk
+  obtain ⟨ks, ys, ms, ds, hs'', mis, ss, uss, offs⟩ := s
+  obtain ⟨ke, ye, me, de, he'', mie, se, use, offe⟩ := e
+  simp only at hs he hs' he'
+  subst hs he hs' he'
+  simp [assemble, assembleRaw, instanceDT, endOff, isAware, TzOpt.fill, ofDTa, toDT]
+
+/-- **interval_aware_endpoints.** Two endpoints with explicit offsets (below 24 h, UTC instants representable where the code
+    needs them): the Interval of the two aware DateTimes, the same for every value of the `tz` option, `None` included -/
+theorem interval_aware_endpoints (b : Backend) (tz : TzOpt) (s e : Value) (hk : BothDateTimes s e) (a c : Int)
+    (hs : s.off = some a) (he : e.off = some c) (ha : offOk a = true) (hc : offOk c = true)
+    (hu : needUtc b tz s e (toDT s a) (toDT e c) = true → utcOk (toDT s a) = true ∧ utcOk (toDT e c) = true) :
+    assemble b tz (.startEnd s e) = .ok (.interval s e) := by
+  obtain ⟨hs', he'⟩ := hk
+  obtain ⟨ks, ys, ms, ds, hs'', mis, ss, uss, offs⟩ := s
+  obtain ⟨ke, ye, me, de, he'', mie, se, use, offe⟩ := e
+  simp only at hs he hs' he'
+  subst hs he hs' he'
+  have hu' : (needUtc b tz ⟨.datetime, ys, ms, ds, hs'', mis, ss, uss, some a⟩ ⟨.datetime, ye, me, de, he'', mie, se, use, some c⟩
+      (toDT ⟨.datetime, ys, ms, ds, hs'', mis, ss, uss, some a⟩ a) (toDT ⟨.datetime, ye, me, de, he'', mie, se, use, some c⟩ c) &&
+      !(utcOk (toDT ⟨.datetime, ys, ms, ds, hs'', mis, ss, uss, some a⟩ a) &&
+        utcOk (toDT ⟨.datetime, ye, me, de, he'', mie, se, use, some c⟩ c))) = false := by
+    cases hn : needUtc b tz ⟨.datetime, ys, ms, ds, hs'', mis, ss, uss, some a⟩ ⟨.datetime, ye, me, de, he'', mie, se, use, some c⟩
+      (toDT ⟨.datetime, ys, ms, ds, hs'', mis, ss, uss, some a⟩ a) (toDT ⟨.datetime, ye, me, de, he'', mie, se, use, some c⟩ c) with
+    | false => rfl
+    | true => obtain ⟨h1, h2⟩ := hu hn; rw [h1, h2]; rfl
+  simp only [assemble, assembleRaw, instanceDT, endOff, isAware, ha, hc, if_true, Option.isSome_some, bne_self_eq_false,
+    Bool.true_and, hu']
+  simp [ofDTa, toDT]
+
+/-- the repaired check is unreachable unless `tz=None`: with the default or a fixed-offset `tz` every endpoint is aware
+    (the behaviour for every other call is unchanged) -/
+theorem endpoints_aware_unless_tz_none (tz : TzOpt) (htz : tz ≠ .naive) (v : Value) : isAware tz v = true := by
+  unfold isAware endOff
+  cases v.off with
+  | some o => rfl
+  | none => cases tz with
+    | default => rfl
+    | fixed o => rfl
+    | shared o => rfl
+    | naive => exact absurd rfl htz
+
+/-- **tz_none_naive_values.** Under `tz=None` a date, time or date-time written without offset becomes a *naive* value
+    (DateTime without tzinfo, or the Date / Time itself with `exact=True`); never an error -/
+theorem tz_none_naive_values (exact : Bool) (now : Int × Int × Int) (v : Value) (hv : v.off = none) :
+    ∃ w, wrapTz exact .naive now v = .ok w ∧ w.off = none := by
+  unfold wrapTz
+  simp only
+  cases hk : v.kind <;> simp only [hv]
+  · cases exact
+    · exact ⟨_, rfl, rfl⟩
+    · exact ⟨_, rfl, hv⟩
+  · cases exact <;> exact ⟨_, rfl, rfl⟩
+  · exact ⟨_, rfl, hv⟩
+
+example : parseAll .py { tz := .naive } (fun _ _ _ => .error .parserError) "2021-03-04T00Z/2021-03-05T00".toList =
+    .error .parserError := by decide
+example : parseAll .rust { tz := .naive } (fun _ _ _ => .error .parserError) "2021-03-04T00/2021-03-05T00Z".toList =
+    .error .parserError := by decide
+/-- the same strings under the default `tz` (UTC) are Intervals, as before -/
+example : parseAll .py {} (fun _ _ _ => .error .parserError) "2021-03-04T00Z/2021-03-05T00".toList =
+    .ok (.interval (dateTimeV 2021 3 4 0 0 0 0 (some 0)) (dateTimeV 2021 3 5 0 0 0 0 (some 0))) := by decide
+example : parseAll .rust { tz := .naive } (fun _ _ _ => .error .parserError) "2021-03-04T00/2021-03-05T00".toList =
+    .ok (.interval (dateTimeV 2021 3 4 0 0 0 0 none) (dateTimeV 2021 3 5 0 0 0 0 none)) := by decide
+example : parseAll .py { tz := .naive } (fun _ _ _ => .error .parserError) "2021-03-04T00Z/2021-03-05T00+01:00".toList =
+    .ok (.interval (dateTimeV 2021 3 4 0 0 0 0 (some 0)) (dateTimeV 2021 3 5 0 0 0 0 (some 3600))) := by decide
+example : parseAll .py { tz := .naive } (fun _ _ _ => .error .parserError) "0001-01-01T00:00/P1D".toList =
+    .ok (.interval (dateTimeV 1 1 1 0 0 0 0 none) (dateTimeV 1 1 2 0 0 0 0 none)) := by decide
+example : parseAll .rust { tz := .naive } (fun _ _ _ => .error .parserError) "12:34".toList =
+    .ok (.dateTime (dateTimeV 2001 2 3 12 34 0 0 none)) := by decide
+example : parseAll .py { tz := .naive } (fun _ _ _ => .error .parserError) "2021-03-05T00".toList =
+    .ok (.dateTime (dateTimeV 2021 3 5 0 0 0 0 none)) := by decide
+example : BothDateTimes (dateTimeV 2021 3 4 0 0 0 0 (some 0)) (dateTimeV 2021 3 5 0 0 0 0 none) ∧
+    (dateTimeV 2021 3 4 0 0 0 0 (some 0)).off.isSome ≠ (dateTimeV 2021 3 5 0 0 0 0 none).off.isSome :=
+  ⟨⟨rfl, rfl⟩, by decide⟩
 
 /-! ### the strict gate -/
 
@@ -98,7 +207,7 @@ example (du : Dateutil) : parseAll .py {} du "10pm".toList = .error .parserError
 example (du : Dateutil) : parseAll .rust {} du "Jan 3 2021".toList = .error .parserError := by
   rw [strict_rejects .rust {} rfl du (fun _ _ _ => .error .parserError)]; decide
 /-- … and goes to dateutil with `strict=False` (whose naive result gets the `tz` option, here +01:00) -/
-example : parseAll .py { strict := false, tz := some 3600 } (fun _ _ _ => .ok (dateTimeV 2026 9 30 22 0 0 0 none)) "10pm".toList =
+example : parseAll .py { strict := false, tz := .fixed 3600 } (fun _ _ _ => .ok (dateTimeV 2026 9 30 22 0 0 0 none)) "10pm".toList =
     .ok (.dateTime (dateTimeV 2026 9 30 22 0 0 0 (some 3600))) := by decide
 
 /-! ### no wrap-around -/
